@@ -27,11 +27,14 @@ from .. import tlc, tracecheck, evidence, common
 from .. import lifecases as LC
 
 TRACE_CONSTS = [('Transports', '<- TrAll'), ('Disps', '<- DispsAll'), ('Codes', '<- NoSet'), ('ExtSigs', '<- NoSet'),
-                ('KillSigs', '<- NoSet'), ('MaxOps', '= 0'), ('MaxEnv', '= 0'), ('Devs', '<- TraceDevs')]
+                ('KillSigs', '<- NoSet'), ('MaxOps', '= 0'), ('MaxEnv', '= 0'), ('Logs', '<- NoSet'), ('Steal', '= FALSE'),
+                ('Devs', '<- TraceDevs')]
 ACTIONS = ('IsAlive', 'Wait', 'Kill', 'Terminate', 'Close', 'SendEof', 'ExpectEOF', 'Send', 'Read', 'WithExit', 'Del',
-           'ChildExits', 'ExternalSignal', 'NumberReused', 'PeerCloses', 'PeerResets')
+           'ChildExits', 'ExternalSignal', 'NumberReused', 'PeerCloses', 'PeerResets', 'LogCloses')
+ACTIONS_OF = {'C09': ('StatusStolen',), 'C10': ()}
 INVARIANTS = {
-    'C09': ['ObservedStatusTrue', 'DeathObserved', 'StatusStableInv', 'WaitReturnsCode', 'OnlyWaitBlocks', 'FlagEofMeansDead'],
+    'C09': ['ObservedStatusTrue', 'DeathObserved', 'NoClaimWithoutStatus', 'StatusStableInv', 'WaitReturnsCode', 'OnlyWaitBlocks',
+            'FlagEofMeansDead'],
     'C10': ['NeverAliveAfterReaped', 'NeverTerminatedWhileRunning', 'ForceLeavesDead', 'CloseIdempotent', 'NoLeak',
             'AfterCloseIoFails', 'OnlyWaitBlocks', 'FlagEofMeansDead'],
 }
@@ -42,6 +45,10 @@ SENSITIVITY = {
     'no-recheck-after-kill': ('C10', {'ForceLeavesDead', 'NoLeak'}),
     'popen-status-unset': ('C09', {'ObservedStatusTrue'}),
     'close-no-refresh': ('C09', {'DeathObserved', 'ObservedStatusTrue'}),
+    # the three below are behaviours blind mutation tests slipped past an earlier version of these checks
+    'signal-with-core-bit': ('C09', {'ObservedStatusTrue'}),
+    'wait-swallows-echild': ('C09', {'ObservedStatusTrue', 'NoClaimWithoutStatus', 'WaitReturnsCode', 'DeathObserved'}),
+    'close-flushes-logs': ('C10', {'ForceLeavesDead', 'NoLeak', 'CloseIdempotent'}),
 }
 # default action "terminate" or "core dump" (SIGSTOP-like and default-ignored signals excluded)
 TERM_SIGNALS = [1, 2, 3, 4, 5, 6, 7, 8, 9, 10, 11, 12, 13, 14, 15, 16, 24, 25, 26, 27, 29, 30, 31] + list(range(34, 65))
@@ -57,7 +64,10 @@ def model_check(ctx):
     quick = ctx.quick()
     consts = [('Transports', '<- TrAll'), ('Disps', '<- DispsAll'), ('Codes', '<- CodesMC'), ('ExtSigs', '<- ExtSigsMC'),
               ('KillSigs', '<- KillSigsQ' if quick else '<- KillSigsT'), ('MaxOps', '= %d' % (4 if quick else 5)),
-              ('MaxEnv', '= 2'), ('Devs', '<- NoDevs')]
+              ('MaxEnv', '= 2'), ('Logs', '<- LogsMC'),
+              # somebody else collecting the child's status is part of C09's environment only (C10's clauses
+              # about close() / terminate(force) are stated for a child that is pexpect's to reap)
+              ('Steal', '= TRUE' if ctx.pid == 'C09' else '= FALSE'), ('Devs', '<- NoDevs')]
     invs = INVARIANTS[ctx.pid]
     cfg = tlc.write_cfg(os.path.join(ctx.work, 'mc.cfg'), constants=consts, invariants=invs,
                         properties=['StatusStable'] if ctx.pid == 'C09' else [])
@@ -86,7 +96,7 @@ def model_check(ctx):
                 cov[m.group(1)] += 1
     os.unlink(dot)
     res['coverage'] = dict(cov)
-    for a in ACTIONS:
+    for a in ACTIONS + ACTIONS_OF[ctx.pid]:
         if not any(k == a or k.startswith(a + '(') for k in cov):
             raise tlc.TLCError('action %s never taken (vacuous model run), see %s' % (a, rc['out']))
     sens = {}
